@@ -189,6 +189,44 @@ func main() {
 			}), "Cache.getOrCreate")
 			e.Strs("getOrCreateConds", conds(ca, fd.Body), "Cache.getOrCreate")
 		})
+		for _, c := range []string{"recreateThreshold", "excessiveSizeFactor"} {
+			if v, err := r.ConstInt("cache", c); err != nil {
+				e.Missing(c, err)
+			} else {
+				e.Nat(c, uint64(v), "cache/cache.go const "+c)
+			}
+		}
+		fn(ca, "Cache", "recreatePayload", "recreateConds", func(fd *ast.FuncDecl) {
+			e.Strs("recreateConds", conds(ca, fd.Body), "Cache.recreatePayload: every condition in the function (the two early returns and nothing else)")
+			var body []string
+			loops := 0
+			ast.Inspect(fd.Body, func(x ast.Node) bool {
+				if rs, ok := x.(*ast.RangeStmt); ok {
+					loops++
+					body = append(body, "range "+ca.Render(rs.X))
+					for _, st := range rs.Body.List {
+						body = append(body, ca.Render(st))
+					}
+				}
+				return true
+			})
+			e.Strs("recreateCopyLoop", body, "Cache.recreatePayload: the copy loop (what is ranged over, then its body statements)")
+			e.Strs("recreateEvents", events(ca, fd.Body, func(s string) bool {
+				return strings.HasPrefix(s, "c.payload =") || strings.HasPrefix(s, "c.maxPayloadSize =") || strings.HasPrefix(s, "newPayload")
+			}), "Cache.recreatePayload: assignments")
+		})
+		fn(ca, "Cache", "Cleanup", "cacheCleanupMaxEvents", func(fd *ast.FuncDecl) {
+			var cs []string
+			for _, c := range conds(ca, fd.Body) {
+				if strings.Contains(c, "maxPayloadSize") {
+					cs = append(cs, c)
+				}
+			}
+			cs = append(cs, events(ca, fd.Body, func(s string) bool {
+				return strings.HasPrefix(s, "c.maxPayloadSize =") || s == "call c.recreatePayload" || s == "call delete"
+			})...)
+			e.Strs("cacheCleanupMaxEvents", cs, "Cache.Cleanup: maxPayloadSize update, eviction, then recreatePayload")
+		})
 		for _, g := range []string{"Get", "GetWithError"} {
 			g := g
 			fn(ca, "Cache", g, "events"+g, func(fd *ast.FuncDecl) {
